@@ -137,7 +137,20 @@ example : ∃ s, runLabels i5 goodTrace = some s ∧ s.src = none ∧ s.dst = no
   ⟨_, (Option.some_get good_runs).symm, by decide +kernel, by decide +kernel, by decide +kernel,
     by decide +kernel, by decide +kernel, by decide +kernel⟩
 
-/-! ## the partial theorem -/
+/-! ## the partial theorem
+
+FULL STATEMENT (false for the code as it is — `C03_register_full_false_pull_delete`,
+`C03_register_full_false_commit_race`):
+
+    theorem C03_register (v0 : Option Val) (a : Bool) {s s' : Sys} {l : Label}
+        (h : Reach (Sys.init v0 a) s) (hs : step? s l = some s') : RegisterStep s l s'
+    theorem C03_end_state (v0 a) {s} (h : Reach (Sys.init v0 a) s) (hq : Quiescent s) :
+        s.src = none ∧ s.dst = logical s
+
+What is proved below is the same with `Reach` replaced by `ReachG` (every step satisfies
+`GoodStep`): (1) no client command with `deletes ∧ ¬ blocking` is invoked, (2) `commit D` happens
+only in states with `crit = none`.
+-/
 
 /-- the invariant holds in every state reachable by good steps -/
 theorem C03_invariant (v0 : Option Val) (a : Bool) {s : Sys} (h : ReachG (Sys.init v0 a) s) : MigInv s :=
